@@ -577,6 +577,38 @@ vbi_draw_cc_page_region(vbi_page *pg,
 }
 
 /**
+ * @internal
+ * @param pg Source page.
+ * @param ac Character cell of size VBI_OVER_TOP or VBI_OVER_BOTTOM in pg->text.
+ *
+ * Such a cell is the right half of the double width or double size
+ * character in the column to its left and is drawn together with it.
+ * Enhancement data and the artificial 41st column can however leave a
+ * cell of this size without such a neighbour. It must then be drawn as
+ * a blank, otherwise its pixels remain undefined.
+ *
+ * @returns
+ * TRUE if the left neighbour of @a ac draws this cell.
+ */
+static vbi_bool
+drawn_by_left_neighbour		(const vbi_page *	pg,
+				 const vbi_char *	ac)
+{
+	if (0 == (ac - pg->text) % pg->columns)
+		return FALSE;
+
+	switch (ac[-1].size) {
+	case VBI_DOUBLE_WIDTH:
+	case VBI_DOUBLE_SIZE:
+	case VBI_DOUBLE_SIZE2:
+		return TRUE;
+
+	default:
+		return FALSE;
+	}
+}
+
+/**
  * @param pg Source page.
  * @param fmt Target format. For now only VBI_PIXFMT_RGBA32_LE (vbi_rgba) and
  *   VBI_PIXFMT_PAL8 (1-byte palette indices) are permitted.
@@ -675,6 +707,10 @@ vbi_draw_vt_page_region(vbi_page *pg,
 			switch (ac->size) {
 			case VBI_OVER_TOP:
 			case VBI_OVER_BOTTOM:
+				if (!drawn_by_left_neighbour (pg, ac))
+					draw_blank(canvas_type, canvas, rowstride,
+						   ((canvas_type == 1) ? pen.pal8[0]: pen.rgba[0]),
+						   TCW, TCH);
 				break;
 
 			case VBI_DOUBLE_WIDTH:
@@ -1212,8 +1248,24 @@ draw_row_indexed(vbi_page * pg, vbi_char * ac, uint8_t * canvas, uint8_t * pen,
         for (column = 0; column < pg->columns ; canvas += cw, column++, ac++) {
 
 				if (ac->size == VBI_OVER_TOP
-				    || ac->size == VBI_OVER_BOTTOM)
+				    || ac->size == VBI_OVER_BOTTOM) {
+					/* A transparent space is drawn as a
+					   single blank cell whatever its size. */
+					if (!drawn_by_left_neighbour (pg, ac)
+					    || VBI_TRANSPARENT_SPACE == ac[-1].opacity) {
+						int color = VBI_TRANSPARENT_BLACK;
+
+						if (VBI_OPAQUE == ac->opacity)
+							color = ac->background;
+						else if (VBI_SEMI_TRANSPARENT == ac->opacity)
+							color = ac->background + 40;
+
+						draw_blank(sizeof(*canvas), canvas,
+							   rowstride, color, cw, ch);
+					}
+
 					continue;
+				}
 
 				unicode = (ac->conceal & conceal) ? 0x0020u : ac->unicode;
 
